@@ -21,6 +21,10 @@ package obfs4
 //@   requires !fresh(transports.ErrTryAgain)
 //@   ensures @C04: result2 == nil ==> typeis(result1, *deadlineConn) && unboxptr(result1, *deadlineConn) != nil && unboxptr(result1, *deadlineConn).under == c
 //@   ensures @C03: old(len(bufStr(data))) < ClientMinHandshakeLength ==> result2 == transports.ErrTryAgain && result0 == nil && result1 == nil && bufStr(data) == old(bufStr(data))
+// C03: whenever no registration is matched - whatever the bytes - nothing was consumed from the buffer and the
+// connection was neither written to nor closed (the obfs4 server handshake starts only after a registration's mark
+// was found in the client's bytes)
+//@   ensures @C03: result0 == nil ==> bufStr(data) == old(bufStr(data)) && nwrites(c) == old(nwrites(c)) && closed(c) == old(closed(c))
 // C04 (recognition of an obfs4 first flight, however it is cut): once the minimum client handshake (141 bytes: the
 // representative, the minimum padding, mark and MAC) has arrived, try-again is answered only after the whole candidate
 // list was gone through, and each candidate's mark is searched in everything received so far over the full range of
@@ -31,7 +35,7 @@ package obfs4
 //@   ensures @C04: old(len(bufStr(data))) >= ClientMinHandshakeLength && result0 == nil && result2 == transports.ErrTryAgain ==> defined(swept)
 //@ loop 1:
 //@   invariant data != nil && regManager != nil && old(len(bufStr(data))) >= ClientMinHandshakeLength && !defined(swept)
-//@   invariant bufStr(data) == old(bufStr(data))
+//@   invariant bufStr(data) == old(bufStr(data)) && nwrites(c) == old(nwrites(c)) && closed(c) == old(closed(c))
 
 //@ func (c *deadlineConn) SetDeadline(t time.Time) error
 //@   requires c != nil && c.under != nil
